@@ -19,10 +19,10 @@ CONSTANTS = {
         ("FSL_CHILD_LEN_USES_LEN", D, r"let expected_values_len = self\.len\s*\.checked_mul\(list_size\)\s*\.expect\([^)]*\);\s*if values_data\.len < expected_values_len \{.*?validate_num_child_data\((2)\)", "int"),
         # sparse union: child length compared with len_plus_offset (this one is right)
         ("SPARSE_UNION_USES_LEN_PLUS_OFFSET", D, r"if mode == &UnionMode::Sparse \{\s*let len_plus_offset =\s*checked_len_plus_offset\(&self\.data_type, self\.len, self\.offset\)\?;\s*if field_data\.len < len_plus_offset \{.*?Sparse union child array #\{\} has length smaller than expected for union array \(\{\} < \{\}\).*?dictionary_length - (1);", "int"),
-        # GAP (union): validate_values does nothing
-        ("UNION_VALUES_UNCHECKED", D, r"DataType::Union\(_, _\) => \{\s*(?://[^\n]*\s*)*Ok\(\(\)\)\s*\}\s*DataType::Dictionary\(key_type, _value_type\) => \{.*?let max_value = dictionary_length - (1);", "int"),
-        # GAP (run-end encoded): check_run_ends is called on the run-ends child
-        ("REE_CHECK_RUN_ENDS_ON_CHILD", D, r"let run_ends_data = self\.child_data\(\)\[0\]\.clone\(\);\s*match run_ends\.data_type\(\) \{\s*DataType::Int16 => run_ends_data\.check_run_ends::<i(16)>\(\),", "int"),
+        # union: validate_values checks type ids and dense offsets
+        ("UNION_VALUES_UNCHECKED", D, r"let child = fields\s*\.iter\(\)\s*\.position\(\|\(id, _\)\| id == \*type_id\).*?if offset < (0) \|\| offset as usize >= self\.child_data\[child\]\.len \{", "int"),
+        # run-end encoded: check_run_ends gets the PARENT's offset + len
+        ("REE_CHECK_RUN_ENDS_ON_CHILD", D, r"let len_plus_offset =\s*checked_len_plus_offset\(&self\.data_type, self\.len, self\.offset\)\?;\s*match run_ends\.data_type\(\) \{\s*DataType::Int16 => run_ends_data\.check_run_ends::<i(16)>\(len_plus_offset\),", "int"),
         # validate_utf8 fast path: BOTH ends of every string are tested
         ("UTF8_BOUNDARY_BOTH_ENDS", D, r"if !values_str\.is_char_boundary\(range\.start\)\s*\|\| !values_str\.is_char_boundary\(range\.end\)\s*\{.*?if dict_index < (0) \|\| dict_index > max_value", "int"),
         # validate_each_offset: limit, monotone scan from 0, skip(1)
